@@ -10,9 +10,9 @@ from vlib.engine import Outcome
 PROPERTY = 'C12'
 LEVEL = 'fault_enumeration'
 RULE = ('A real destination agent (key store: right key / wrong key / no key; accept_after_verify on or off) receives a '
-        'bundle built by the independent reference source that carries one or two security blocks (BIB on the payload or on '
-        'an extension block, BCB on the payload) each of which is either valid or malformed in exactly one way drawn from: '
-        'unknown key id, altered MAC, unknown security context id, target number absent from the bundle, duplicate '
+        'bundle built by the independent reference source that carries one or two security blocks (BIB on the payload, on '
+        'an extension block or on both in either target order, BCB on the payload or on both) each of which is either valid or malformed in exactly one way drawn from: '
+        'unknown key id, altered MAC, first / last target altered after the operation, unknown security context id, target number absent from the bundle, duplicate '
         'parameter ids, duplicate result ids, two results / zero results for a target, fewer results than targets, '
         'parameters flag clear with a parameter list present, additional protected/unprotected header maps with a '
         'duplicate key, undecodable additional headers, unknown critical COSE header, result value that is not a COSE '
@@ -28,14 +28,16 @@ ASSUMPTIONS = [
     'security blocks are built by the reference source (COSE_Mac0 / COSE_Encrypt0); the installed pycose limits the kinds',
     'a bundle that does not decode at all is dropped by the receive callback and not judged here',
 ]
-EXHAUSTIVE_PART = 'single malformation x {BIB payload, BIB extension, BCB payload} x key store x acceptance; all (good, bad) pairs in both orders'
+EXHAUSTIVE_PART = 'single malformation x {BIB payload, BIB extension, BIB both (2 orders), BCB payload, BCB both (2 orders)} x key store x acceptance; all (good, bad) pairs in both orders'
 
 SEC_REASONS = {12, 13, 14, 15, 16}
 MALFORMATIONS = ['none', 'wrong-kid', 'bad-tag', 'unknown-ctx', 'target-missing', 'dup-param', 'dup-result-id', 'two-results',
                  'zero-results', 'fewer-results', 'params-flag-clear', 'no-params-default-scope', 'addl-dup-keys',
                  'addl-undecodable', 'crit-header', 'result-not-array', 'result-garbage', 'wrong-tag-kind', 'unknown-tag',
-                 'asb-garbage', 'asb-empty', 'addl-protected-ok']
-BLOCKS = ['bib-payload', 'bib-ext', 'bcb-payload']
+                 'asb-garbage', 'asb-empty', 'addl-protected-ok', 'alter-target-0', 'alter-target-1']
+BLOCKS = ['bib-payload', 'bib-ext', 'bcb-payload', 'bib-multi', 'bib-multi-r', 'bcb-multi', 'bcb-multi-r']
+TARGETS = {'bib-payload': [1], 'bib-ext': [2], 'bcb-payload': [1], 'bib-multi': [2, 1], 'bib-multi-r': [1, 2],
+           'bcb-multi': [2, 1], 'bcb-multi-r': [1, 2]}
 KEYSTORES = ['right', 'wrong', 'none']
 
 
@@ -118,6 +120,14 @@ def malform(bundle, sec_type, mal):
             data = bytearray(bytes.fromhex(tgt['data']))
             data[-1] ^= 0x01
             tgt['data'] = bytes(data).hex()
+    elif mal in ('alter-target-0', 'alter-target-1'):
+        # one target of the block (first / last when it has several) changed after the operation was applied
+        num = asb['targets'][min(int(mal[-1]), len(asb['targets']) - 1)]
+        tgt = next(b for b in bundle['blocks'] if b['num'] == num)
+        data = bytearray(bytes.fromhex(tgt['data']) or b'\x00')
+        data[0] ^= 0x04
+        tgt['data'] = bytes(data).hex()
+        return bundle
     elif mal == 'unknown-ctx':
         asb['ctx'] = 99
     elif mal == 'target-missing':
@@ -164,11 +174,13 @@ def build(case):
     plan = []
     used_targets = set()
     for blk_kind, mal in case['blocks'][:2]:
-        target = 1 if blk_kind.endswith('payload') else 2
+        targets = TARGETS[blk_kind]
+        target = targets[0]
         sec_type = 11 if blk_kind.startswith('bib') else 12
-        if (sec_type, target) in used_targets or (target in [t for _s, t in used_targets] and 12 in (sec_type,) + tuple(s for s, _t in used_targets)):
+        if any((sec_type, t) in used_targets or (t in [u for _s, u in used_targets] and 12 in (sec_type,) + tuple(s for s, _t in used_targets))
+               for t in targets):
             continue     # one operation per target; nothing is layered over an encrypted block
-        used_targets.add((sec_type, target))
+        used_targets.update((sec_type, t) for t in targets)
         scope = {0: 1, -1: 1}
         kwargs = {}
         if mal == 'addl-protected-ok':
@@ -179,13 +191,13 @@ def build(case):
             kwargs['addl_protected'] = cb.enc({4: kid})
             kwargs['addl_unprotected'] = cb.enc({4: kid})
         if sec_type == 11:
-            bundle = bu.ref_add_bib(bundle, [target], 'k-mac-1', 5, scope, **kwargs)
+            bundle = bu.ref_add_bib(bundle, targets, 'k-mac-1', 5, scope, **kwargs)
             if mal == 'no-params-default-scope':
                 bundle = _rebuild_without_params(bundle, 11)
         else:
-            bundle = bu.ref_add_bcb(bundle, [target], 'k-enc-1', 3, scope, [b'\x51' * 12], **kwargs)
+            bundle = bu.ref_add_bcb(bundle, targets, 'k-enc-1', 3, scope, [b'\x51' * 12, b'\x52' * 12][:len(targets)], **kwargs)
         bundle = malform(bundle, sec_type, mal)
-        plan.append((sec_type, target, mal))
+        plan.append((sec_type, 1 if 1 in targets else target, mal))
     return base_bundle(case), bundle, plan
 
 
@@ -198,10 +210,12 @@ def _rebuild_without_params(bundle, sec_type):
     asb.pop('src_raw', None)
     asb['flags'] = 0
     asb['params'] = None
-    target = next(b for b in bundle['blocks'] if b['num'] == asb['targets'][0])
     from vlib import bpsec_util as bu
-    aad = rc.external_aad(bundle, blk, target, asb)
-    asb['results'] = [[[rc.TAG_MAC0, rc.mac0_create(5, bu.KEYS['k-mac-1'], b'k-mac-1', aad, bytes.fromhex(target['data']))]]]
+    asb['results'] = []
+    for num in asb['targets']:
+        target = next(b for b in bundle['blocks'] if b['num'] == num)
+        aad = rc.external_aad(bundle, blk, target, asb)
+        asb['results'].append([[rc.TAG_MAC0, rc.mac0_create(5, bu.KEYS['k-mac-1'], b'k-mac-1', aad, bytes.fromhex(target['data']))]])
     blk['data'] = rc.encode_asb(asb)
     return bundle
 
@@ -287,6 +301,8 @@ def execute(case):
     for esc in node.escapes():
         out.fail('escape:%s@%s' % (esc.exc_type, esc.frame), 'exception escaped a main-loop callback (%s): %s: %s' % (desc, esc.exc_type, esc.exc_msg[:100]))
     out.label('keys:' + keystore, 'accept' if accept else 'verify-only', 'verdict:%s' % verdict, 'blocks:%d' % len(plan))
+    if any(len(TARGETS[b]) > 1 for b, _m in case['blocks'][:2]):
+        out.label('multi-target')
     for sec_type, _t, mal in plan:
         out.label('%s:%s' % ('bib' if sec_type == 11 else 'bcb', mal))
     try:
